@@ -193,7 +193,57 @@ def gen_wal():
     return "\n".join(L) + "\n"
 
 
-GENERATORS = {"GenWire.v": gen_wire, "GenWal.v": gen_wal}
+# ------------------------------------------------------------------------------------------
+# sql/parser/mod.rs -> Gen/GenPratt.v  (binding powers of the Pratt expression parser)
+# ------------------------------------------------------------------------------------------
+PRATT_OPS = {"Or": "BOr", "And": "BAnd", "Eq": "BEq", "Neq": "BNeq", "Lt": "BLt", "Gt": "BGt", "Le": "BLe", "Ge": "BGe",
+             "Like": "BLike", "Plus": "BPlus", "Minus": "BMinus", "Star": "BMul", "Slash": "BDiv",
+             "Percent": "BMod", "Concat": "BConcat"}
+
+
+def gen_pratt():
+    src = read("sql/parser/mod.rs")
+    body = fn_body(src, r"fn infix_binding_power\(&mut self\) -> Option<\(u8, u8\)> \{", "infix_binding_power")
+    need(re.search(r"Token::Not\s*=>\s*\{\s*let next = self\.__peek_token\(\);", body), "infix_binding_power: NOT look-ahead arm")
+    not_arm = fn_body(body, r"Token::Not\s*=>\s*\{", "infix_binding_power NOT arm")
+    inner = re.findall(r"((?:Token::\w+\s*\|?\s*)+)=>\s*Some\(\((\d+),\s*(\d+)\)\)", not_arm)
+    need(len(inner) == 1 and set(re.findall(r"Token::(\w+)", inner[0][0])) == {"In", "Between", "Like"},
+         f"infix_binding_power: NOT look-ahead covers {inner}")
+    body = body.replace(not_arm, "{}")
+    arms = re.findall(r"((?:Token::\w+\s*\|?\s*)+)=>\s*Some\(\((\d+),\s*(\d+)\)\)", body)
+    table = {}
+    for toks, l, r in arms:
+        for t in re.findall(r"Token::(\w+)", toks):
+            need(t not in table, f"infix_binding_power: token {t} listed twice")
+            table[t] = (int(l), int(r))
+    for t in PRATT_OPS:
+        need(t in table, f"infix_binding_power: no arm for Token::{t}")
+    known = set(PRATT_OPS) | {"In", "Between", "Is"}
+    need(set(table) <= known, f"infix_binding_power: unexpected tokens {set(table) - known}")
+    need((int(inner[0][1]), int(inner[0][2])) == table["In"] == table["Between"] == table["Like"],
+         "infix_binding_power: NOT IN/BETWEEN/LIKE power differs from IN/BETWEEN/LIKE")
+    prefix = fn_body(src, r"fn parse_prefix\(&mut self\) -> ParseResult<Expr> \{", "parse_prefix")
+    m = re.search(r"Token::Not\s*=>\s*\{\s*self\.next_token\(\);\s*let expr = self\.parse_expr_bp\((\d+)\)\?;", prefix)
+    need(m, "parse_prefix: NOT arm")
+    pnot = int(m.group(1))
+    mm = re.findall(r"let expr = self\.parse_expr_bp\((\d+)\)\?;\s*(?://[^\n]*\n\s*)*Ok\(Expr::UnaryOp\s*\{\s*op: UnaryOperator::(Plus|Minus)", prefix)
+    need({x[1] for x in mm} == {"Plus", "Minus"}, f"parse_prefix: unary +/- arms: {mm}")
+    loop = fn_body(src, r"fn parse_expr_bp\(&mut self, min_bp: u8\) -> ParseResult<Expr> \{", "parse_expr_bp")
+    need(re.search(r"if l_bp < min_bp \{\s*break;", loop), "parse_expr_bp: stop condition is not `l_bp < min_bp`")
+    L = ["(* GENERATED by tools/gen_tables.py from sql/parser/mod.rs -- do not edit *)",
+         "From Coq Require Import NArith.", "From Axv Require Import Model.PrattOps.", "Open Scope N_scope.",
+         "Definition infix_bp (o : pbinop) : N * N :=\n  match o with"]
+    for t, c in PRATT_OPS.items():
+        L.append(f"  | {c} => ({table[t][0]}, {table[t][1]})")
+    L.append("  end.")
+    L.append(f"Definition pnot : N := {pnot}.")
+    L.append(f"Definition pneg : N := {mm[0][0]}.")
+    L.append(f"Definition bp_in : N * N := ({table['In'][0]}, {table['In'][1]}).")
+    L.append(f"Definition bp_between : N * N := ({table['Between'][0]}, {table['Between'][1]}).")
+    return "\n".join(L) + "\n"
+
+
+GENERATORS = {"GenWire.v": gen_wire, "GenWal.v": gen_wal, "GenPratt.v": gen_pratt}
 
 
 def main(argv):
